@@ -142,6 +142,10 @@ def main (argv=None):
     for s in r["samples"]:
       if len(samples) < 8: samples.append(s)
     for k, v in r["violations"].items():
+      # (the shard's spec goes into the replay file: a witness that only
+      #  fails after the cases that preceded it in its shard can then be
+      #  reproduced by re-running that shard)
+      v["spec"] = specs[r["idx"]] if r["idx"] < len(specs) else None
       o = violations.get(k)
       if o is None:
         violations[k] = v
@@ -149,6 +153,7 @@ def main (argv=None):
         o["count"] += v["count"]
         if len(json.dumps(v["witness"])) < len(json.dumps(o["witness"])):
           o["witness"] = v["witness"]; o["what"] = v["what"]
+          o["spec"] = v["spec"]
     inconclusive.extend(r["inconclusive"])
     for k, v in (r.get("extra") or {}).items():
       extra.setdefault(k, v)
@@ -188,7 +193,7 @@ def main (argv=None):
       with open(path, "w") as f:
         json.dump(dict(property=cid, key=k, what=v["what"],
                        witness=v["witness"], seed=seed, tier=args.tier,
-                       count=v["count"]), f, indent=1)
+                       count=v["count"], spec=v.get("spec")), f, indent=1)
     else:
       path = args.replay
     replay_paths.append(path)
